@@ -103,6 +103,10 @@ func c18OpList(r *fw.Rand, tag string) []*operation.AnchoredOperation {
 		}
 		if r.Chance(1, 3) {
 			op.EquivalentReferences = []string{"eq1", "eq2"}
+			if r.Bool() {
+				// what is an equivalent reference of one operation is the canonical reference of another (or its own)
+				op.EquivalentReferences = []string{fmt.Sprintf("ref%d", r.Intn(6)), "eq1", fmt.Sprintf("ref%d", r.Intn(6))}
+			}
 		}
 		if r.Chance(1, 4) {
 			op.AnchorOrigin = "https://origin.example"
@@ -298,6 +302,23 @@ func c18Case(c *fw.Case, combo int, cache map[int]*c18Tr) func() {
 	withBase, withKeyCtx, incPub, incUnpub := combo&1 != 0, combo&4 != 0, combo&8 != 0, combo&16 != 0
 	ct := c18Transformer(r, combo, cache)
 	tr, methodCtx, keyCtx := ct.tr, ct.methodCtx, ct.keyCtx
+	if r.Chance(1, 5) {
+		// a state the transformer has to give up on half-way (a usable key with purposes, then a key whose material does not fit its
+		// type, an unknown type, no material): whatever it had collected until then shows in no later result
+		good := gen.DocKey(r, "leftover", gen.TJwk2020, []string{"authentication", "assertionMethod", "keyAgreement", "capabilityInvocation", "capabilityDelegation"}, "jwk")
+		bad := fw.Pick(r, []map[string]interface{}{
+			{"id": "bad1", "type": gen.TEd2018, "purposes": []interface{}{"authentication"}, "publicKeyJwk": gen.NewKey(r, gen.P256).JWK()},
+			{"id": "bad2", "type": "UnknownKeyType2030", "purposes": []interface{}{"assertionMethod"}, "publicKeyJwk": gen.NewKey(r, gen.Ed25519).JWK()},
+			{"id": "bad3", "type": gen.TEd2020, "purposes": []interface{}{"authentication"}, "publicKeyJwk": map[string]interface{}{"kty": "OKP", "crv": "Ed25519", "x": "!!"}},
+			{"id": "bad4", "type": gen.TJwk2020, "purposes": []interface{}{"authentication"}}})
+		if pd, perr := sut.ToDoc(map[string]interface{}{"publicKey": []interface{}{good, bad}}); perr == nil {
+			_, terr := tr.TransformDocument(&protocol.ResolutionModel{Doc: pd}, protocol.TransformationInfo{"id": "did:sidetree:EiBroken", "published": true})
+			c.Count("transformations-given-up-half-way", 1)
+			if terr != nil {
+				c.Count("transformations-given-up-half-way-with-error", 1)
+			}
+		}
+	}
 	rm, doc := c18State(r)
 	pubIn := append([]*operation.AnchoredOperation{}, rm.PublishedOperations...)
 	unpubIn := append([]*operation.AnchoredOperation{}, rm.UnpublishedOperations...)
